@@ -86,6 +86,16 @@ def make_pre(m, tag, extra_cells=2):
         m.dicts[d1.idx].present[k] = z3.Bool(f"{tag}_p1_{k}")
         m.dicts[d1.idx].val[k] = Tup([Name(cb, cn), cs])
     o = m.alloc_obj()
+    # run __init__ first so that fields this model does not know (e.g. a cache added to the class) exist with
+    # their initial value; the three known fields are then replaced by the symbolic pre-state
+    if "__init__" in m.methods:
+        from vk.pysym.interp import Frame
+        m.frames.append(Frame())
+        try:
+            m.call_method(o, "__init__", [])
+        finally:
+            m.frames.pop()
+    m.extra_fields = sorted(k for k in m.objs[o.idx] if k not in (F_AL, F_MAP, F_CAN))
     m.objs[o.idx][F_AL] = d0
     m.objs[o.idx][F_MAP] = d1
     m.objs[o.idx][F_CAN] = canon
